@@ -118,6 +118,19 @@ def observe(xmlschema, schema, make_resource, api, depth):
         out = schema.to_objects(r, validation='lax')
         obj = out[0] if isinstance(out, tuple) else out
         return obj_sig(obj) if obj is not None else None
+    if api in ('find_named', 'find_deep', 'errors_named', 'decode_named'):
+        # named paths (not wildcard-only): one step = the lazy depth, two steps = deeper than it
+        path, ns = named_paths(r)[0 if api != 'find_deep' else 1]
+        if path is None:
+            return None
+        if api in ('find_named', 'find_deep'):
+            return [(e.tag, tuple(sorted(e.attrib.items()))) for e in r.iterfind(path, namespaces=ns)]
+        if api == 'errors_named':
+            return [clean_reason(e.reason) for e in schema.iter_errors(r, path=path, namespaces=ns)]
+        out = []
+        for item in schema.iter_decode(r, path=path, namespaces=ns, validation='lax'):
+            out.append(clean_reason(item.reason) if isinstance(item, E) else repr(item))
+        return out
     if api in ('iter', 'iter_depth', 'iterfind'):
         seq = []
         lazy_depth = depth or 0
@@ -136,6 +149,35 @@ def observe(xmlschema, schema, make_resource, api, depth):
     raise ValueError(api)
 
 
+def named_paths(r):
+    """(path, namespaces) for the commonest child tag of the root and for its commonest child in turn; computed from the
+    document text of the resource, not from its (lazy) tree."""
+    import collections
+    import xml.etree.ElementTree as ET2
+    if r.url:
+        with open(r.filepath, 'rb') as f:
+            text = f.read()
+    elif hasattr(r.source, 'getvalue'):
+        text = r.source.getvalue()
+    else:
+        text = r.source
+    root = ET2.fromstring(text if isinstance(text, bytes) else text.encode('utf-8'))
+    kids = collections.Counter(c.tag for c in root if isinstance(c.tag, str))
+    if not kids:
+        return (None, None), (None, None)
+    tag1 = kids.most_common(1)[0][0]
+    ns1, _, loc1 = tag1[1:].partition('}') if tag1.startswith('{') else ('', '', tag1)
+    nsmap = {'q1': ns1} if ns1 else {}
+    step1 = ('q1:' if ns1 else '') + loc1
+    grand = collections.Counter(g.tag for c in root if c.tag == tag1 for g in c if isinstance(g.tag, str))
+    if not grand:
+        return (step1, nsmap), (None, None)
+    tag2 = grand.most_common(1)[0][0]
+    ns2, _, loc2 = tag2[1:].partition('}') if tag2.startswith('{') else ('', '', tag2)
+    nsmap2 = dict(nsmap, **({'q2': ns2} if ns2 else {}))
+    return (step1, nsmap), (step1 + '/' + ('q2:' if ns2 else '') + loc2, nsmap2)
+
+
 def innermost_function(exc):
     import os
     import traceback
@@ -146,7 +188,7 @@ def innermost_function(exc):
     return None
 
 
-APIS = ('is_valid', 'iter_errors', 'decode_lax', 'iter', 'iter_depth', 'iterfind')
+APIS = ('is_valid', 'iter_errors', 'decode_lax', 'iter', 'iter_depth', 'iterfind', 'find_named', 'find_deep', 'errors_named', 'decode_named')
 
 
 def eager_iter_depth(xmlschema, text, depth):
@@ -240,18 +282,25 @@ def run_gen(spec, res):
     scratch = tempfile.mkdtemp(prefix='c06-')
     for d in range(spec['docs']):
         fam = rng.choice(('shop', 'shop', 'tree', 'ctx'))
-        doc = D.GENERATORS[fam](rng)
+        big = d % 8 == 0
+        if big:
+            # longer than several parser read buffers (16 KiB each): the streamed tree is extended while it is consumed
+            fam = 'shop'
+            doc = D.gen_shop(rng, nprod=rng.randint(80, 140), nord=rng.randint(20, 50))
+            res.count('big_documents')
+        else:
+            doc = D.GENERATORS[fam](rng)
         version = rng.choice(('1.0', '1.1'))
         schema = schemas[fam, version]
         prefixes = D.default_prefixes(fam, rng)
         variants = [(doc, 'valid')]
         faults = [(p, k) for p, n in doc.walk() for k in D.faults_at(doc, p)]
         rng.shuffle(faults)
-        for p, k in faults[:2]:
+        for p, k in faults[:1 if big else 2]:
             r = D.apply_fault(doc, p, k, rng)
             if r:
                 variants.append((r[0], k))
-        for idk in rng.sample(D.IDENTITY_FAULTS, 2):
+        for idk in rng.sample(D.IDENTITY_FAULTS, 1 if big else 2):
             r = D.identity_fault(doc, fam, idk, rng)
             if r:
                 variants.append((r[0], idk))
